@@ -294,6 +294,38 @@ fn field_chain(e: &Expr) -> Option<Vec<String>> {
     }
 }
 
+/// `X.chars().last()` → X
+fn last_char_of(e: &Expr) -> Option<&Expr> {
+    if let Expr::MethodCall(l) = e {
+        if l.method == "last" && l.args.is_empty() {
+            if let Expr::MethodCall(c) = &*l.receiver {
+                if c.method == "chars" && c.args.is_empty() {
+                    return Some(&c.receiver);
+                }
+            }
+        }
+    }
+    None
+}
+
+/// patterns over `Option<char>` with ASCII literals, as patterns over the last byte
+fn ascii_char_pat(p: &Pat) -> R<String> {
+    match p {
+        Pat::Wild(_) => Ok("_".into()),
+        Pat::Ident(id) if id.ident == "None" => Ok("none".into()),
+        Pat::Or(o) => {
+            let v: R<Vec<String>> = o.cases.iter().map(ascii_char_pat).collect();
+            Ok(v?.join(" | "))
+        }
+        Pat::TupleStruct(ts) if path_last(&ts.path) == "Some" && ts.elems.len() == 1 => match &ts.elems[0] {
+            Pat::Lit(PatLit { lit: Lit::Char(c), .. }) if c.value().is_ascii() => Ok(format!("some 0x{:02x}", c.value() as u32)),
+            Pat::Wild(_) => Ok("some _".into()),
+            _ => Err("pattern on the last character other than an ASCII literal".into()),
+        },
+        _ => Err("pattern on the last character".into()),
+    }
+}
+
 /// `*PLACE.as_mut().unwrap()` → PLACE
 fn opt_payload_place(e: &Expr) -> Option<&Expr> {
     let e = match e {
@@ -651,6 +683,29 @@ impl<'a> Tr<'a> {
                 let k = keys.ok_or("ZipCryptoWriter without keys")?;
                 Ok(Some(format!("({{ pw := {k}, buffer := [] }} : Model.EncState)")))
             }
+            // match STRING.chars().last() { Some('c') | … => A, _ => B }  with ASCII `c`: in UTF-8 an ASCII
+            // character is the last character exactly when its byte is the last byte
+            Expr::Match(m) if last_char_of(&m.expr).map(|x| self.type_of(x).as_deref() == Some("Bytes")).unwrap_or(false) => {
+                let x = self.expr(last_char_of(&m.expr).unwrap())?;
+                let hint = exp.clone().or_else(|| m.arms.iter().find_map(|a| self.type_of(&a.body)));
+                let mut out = format!("(match Rs.lastByte {x} with");
+                let pad = "  ".repeat(self.indent + 1);
+                for a in &m.arms {
+                    if a.guard.is_some() {
+                        return Err("match guard".into());
+                    }
+                    let p = ascii_char_pat(&a.pat)?;
+                    let body = (*a.body).clone();
+                    let e = hint.clone();
+                    let b = self.sub_do(false, |s| {
+                        s.expect = e;
+                        s.expr(&body)
+                    })?;
+                    write!(out, "\n{pad}| {p} => {b}").unwrap();
+                }
+                out.push(')');
+                Ok(Some(self.bind_typed(out, hint)))
+            }
             // string + "literal"
             Expr::Binary(b) if matches!(b.op, BinOp::Add(_)) && self.type_of(&b.left).as_deref() == Some("Bytes") => {
                 if let Expr::Lit(ExprLit { lit: Lit::Str(ls), .. }) = &*b.right {
@@ -777,6 +832,25 @@ impl<'a> Tr<'a> {
                 let v = self.expr(&m.receiver)?;
                 return Ok(Some(v));
             }
+            // vec_u8.clear() on a byte-vector place reached through `last_mut().unwrap()` or a field chain
+            "clear" if m.args.is_empty() && self.type_of(&m.receiver).as_deref() == Some("Bytes") => {
+                if let Expr::Field(f) = &*m.receiver {
+                    if let (Expr::MethodCall(u), Member::Named(fld)) = (&*f.base, &f.member) {
+                        if u.method == "unwrap" && u.args.is_empty() {
+                            if let Some((vecv, _)) = self.s_last_of(&u.receiver)? {
+                                let el = self.bind_m(format!("Rs.last {vecv}"));
+                                self.s_assign_str(&vecv, format!("Rs.setLast {vecv} {{ {el} with {fld} := [] }}"))?;
+                                return Ok(Some("()".into()));
+                            }
+                        }
+                    }
+                }
+                if self.s_is_splace(&m.receiver) {
+                    self.s_assign(&m.receiver, "[]".into())?;
+                    return Ok(Some("()".into()));
+                }
+                return Err("clear() on a byte vector that is not a place of `self`".into());
+            }
             // <Vec<u8> as Write>::write(buf) on a byte-vector place
             "write" if m.args.len() == 1 && self.type_of(&m.receiver).as_deref() == Some("Bytes") => {
                 return Ok(Some(self.s_vec_write(&m.receiver, &m.args[0])?));
@@ -881,6 +955,26 @@ impl<'a> Tr<'a> {
                     return Err(format!("calls the untranslated {st}::{name}"));
                 }
                 return self.s_call_method(&m.receiver, &st, &name, &m.args);
+            }
+            // self.write_all(bytes)? : `Write::write_all` (std's default body) over the object's own `write`
+            if name == "write_all" && m.args.len() == 1 && matches!(&*m.receiver, Expr::Path(p) if p.path.is_ident("self")) {
+                let st = self.s_self_ty();
+                if let Some(mi) = self.reg.methods.get(&format!("{st}::write")) {
+                    if mi.fi.mode == Mode::S {
+                        if self.failed.contains(&format!("{st}::write")) {
+                            return Err(format!("calls the untranslated {st}::write"));
+                        }
+                        if self.type_of(&m.args[0]).as_deref() != Some("Bytes") {
+                            return Err("write_all of an expression of unknown type".into());
+                        }
+                        let a = self.expr(&m.args[0])?;
+                        let t1 = self.fresh();
+                        let t2 = self.fresh();
+                        self.emit(format!("let ({t1}, {t2}) ← Rs.S.write_all (Gen.{st}.write ext) ({a}.length + 1) self {a}"));
+                        self.emit(format!("self := {t2}"));
+                        return Ok(t1);
+                    }
+                }
             }
             // operations on the bare sink (`let writer = self.inner.get_plain()`)
             if self.s_alias_of(&m.receiver) == Some(Alias::Plain) {
